@@ -686,7 +686,9 @@ impl Router {
                         let mut group = None;
 
                         if let Some((grp, filter_path)) = extract_group(&f.path) {
-                            group = Some(grp);
+                            // a group shares one cursor into the log of its filter, so the
+                            // same group name on another filter is another group
+                            group = Some(format!("{grp}/{filter_path}"));
                             filter = filter_path;
                         };
 
